@@ -1065,3 +1065,25 @@ Proof.
       end. }
   eapply G; eauto.
 Qed.
+
+(* mutual exclusion also holds in the middle of a critical section: the guards the clients hold in a
+   fine-grained state are exactly those of its collapsed image, a reachable-like state of the model *)
+Lemma second_guards c m s : s_guards (fst (second c m s)) = s_guards s.
+Proof.
+  unfold second. destruct m as [a k wn|a k]; cbn [fst].
+  - destruct (aget a (s_ops s)) as [p|]; [|reflexivity].
+    destruct (unlock_np p) as [[np ob] nxt]. cbn [fst]. apply T_guards.
+  - apply T_guards.
+Qed.
+
+Theorem fine_mutual_exclusion c fs g1 g2 k :
+  Rel c fs -> In (g1, k) (s_guards (fst fs)) -> In (g2, k) (s_guards (fst fs)) -> g1 = g2.
+Proof.
+  intros (HI & _ & _) H1 H2.
+  assert (E : s_guards (collapse c fs) = s_guards (fst fs)).
+  { unfold collapse. destruct (snd fs); [apply second_guards|reflexivity]. }
+  rewrite <- E in H1, H2.
+  apply (In_aget _ _ _ (inv_nd_g _ HI)) in H1. apply (In_aget _ _ _ (inv_nd_g _ HI)) in H2.
+  destruct (Inv_guard_present _ g1 k HI H1) as (e1 & He1 & Ho1).
+  destruct (Inv_guard_present _ g2 k HI H2) as (e2 & He2 & Ho2). congruence.
+Qed.
